@@ -384,6 +384,123 @@ Proof.
   repeat split; try assumption; discriminate.
 Qed.
 
+(* ------------------------------------------------------------------ twin entry points *)
+(* RELEASE / RELEASEDIR / CREATE / SETATTR consult the same switches as OPEN / OPENDIR: the observable
+   answers of the twins are functions of the behaviour record, so the theorems above apply to them *)
+Definition twins_within (w : twins) (capable : N) : Prop :=
+  (w_release w = UEnosys -> contains capable F_ZERO_MESSAGE_OPEN = true) /\
+  (w_releasedir w = UEnosys -> contains capable F_ZERO_MESSAGE_OPENDIR = true) /\
+  (w_create_handle w = false -> contains capable F_ZERO_MESSAGE_OPEN = true) /\
+  (w_create_wb w = Some true -> contains capable F_WRITEBACK_CACHE = true) /\
+  (w_create_killpriv w = Some true -> contains capable F_HANDLE_KILLPRIV_V2 = true) /\
+  (w_setattr_killpriv w = Some true -> contains capable F_HANDLE_KILLPRIV_V2 = true).
+
+Theorem pt_twins_agree c t :
+  let b := pt_behaviour c t in let w := pt_twins t in
+  (w_release w = if b_open_enosys b then UEnosys else UOk) /\
+  (w_releasedir w = if b_opendir_enosys b then UEnosys else UOk) /\
+  w_create_handle w = negb (b_open_enosys b) /\
+  w_create_wb w = tri (negb (b_open_enosys b)) (b_writeback_flags b) /\
+  w_create_killpriv w = Some (b_killpriv b) /\ w_setattr_killpriv w = Some (b_killpriv b).
+Proof. repeat split; reflexivity. Qed.
+
+Theorem ovl_twins_agree c t :
+  let b := ovl_behaviour c t in let w := ovl_twins t in
+  (w_release w = if b_open_enosys b then UEnosys else UOk) /\
+  (w_releasedir w = if b_opendir_enosys b then UEnosys else UOk) /\
+  w_create_handle w = negb (b_open_enosys b) /\
+  w_create_wb w = tri (negb (b_open_enosys b)) (b_writeback_flags b) /\
+  w_create_killpriv w = None /\ w_setattr_killpriv w = Some (b_killpriv b).
+Proof. repeat split; reflexivity. Qed.
+
+Lemma twins_of_toggles_within (t : toggles) capable (w : twins) :
+  toggles_within t capable ->
+  (w_release w = UEnosys -> t_no_open t = true) ->
+  (w_releasedir w = UEnosys -> t_no_opendir t = true) ->
+  (w_create_handle w = false -> t_no_open t = true) ->
+  (w_create_wb w = Some true -> t_writeback t = true) ->
+  (w_create_killpriv w = Some true -> t_killpriv_v2 t = true) ->
+  (w_setattr_killpriv w = Some true -> t_killpriv_v2 t = true) ->
+  twins_within w capable.
+Proof.
+  intros [A [B [C [D E]]]] H1 H2 H3 H4 H5 H6. unfold twins_within.
+  repeat split; intro H; auto.
+Qed.
+
+Theorem pt_twins_negotiated c t capable : twins_within (pt_twins (snd (pt_init c t capable))) capable.
+Proof.
+  apply (twins_of_toggles_within _ _ _ (pt_init_any c t capable)); unfold pt_twins;
+    cbn [w_release w_releasedir w_create_handle w_create_wb w_create_killpriv w_setattr_killpriv].
+  - destruct (t_no_open _); [reflexivity|discriminate].
+  - destruct (t_no_opendir _); [reflexivity|discriminate].
+  - intro H. apply negb_false_iff in H. exact H.
+  - destruct (t_no_open _); cbn [negb tri]; [discriminate|]. intro H; inversion H; reflexivity.
+  - intro H; inversion H; reflexivity.
+  - intro H; inversion H; reflexivity.
+Qed.
+
+Theorem ovl_twins_negotiated c t capable : twins_within (ovl_twins (snd (ovl_init c t capable))) capable.
+Proof.
+  apply (twins_of_toggles_within _ _ _ (ovl_init_any c t capable)); unfold ovl_twins;
+    cbn [w_release w_releasedir w_create_handle w_create_wb w_create_killpriv w_setattr_killpriv].
+  - destruct (t_no_open _); [reflexivity|discriminate].
+  - destruct (t_no_opendir _); [reflexivity|discriminate].
+  - intro H. apply negb_false_iff in H. exact H.
+  - destruct (t_no_open _); cbn [negb tri]; [discriminate|]. intro H; inversion H; reflexivity.
+  - discriminate.
+  - discriminate.
+Qed.
+
+(* a single feature bit of a word that is a subset of [opts] is in [opts] *)
+Lemma contains_subset w opts k : N.land w opts = w -> contains w (2 ^ k) = true -> contains opts (2 ^ k) = true.
+Proof.
+  intros Hs. rewrite !contains_pow2. intro H. rewrite <- Hs, N.land_spec in H.
+  apply andb_prop in H. apply H.
+Qed.
+
+Lemma twins_within_subset w word opts :
+  N.land word opts = word -> twins_within w word -> twins_within w opts.
+Proof.
+  intros Hs [A [B [C [D [E F]]]]]. unfold twins_within.
+  rewrite ZMO_val, ZMOD_val, WB_val, KP_val in *.
+  repeat split; intro H; eapply contains_subset; eauto.
+Qed.
+
+(* through a Vfs: the twins answer with the backend's switches, which were negotiated from a subset of the
+   client's word; the Vfs only turns an `ok` into an error, never into ENOSYS *)
+Theorem vfs_twins_negotiated s s' t c opts :
+  twins_within (vfs_twins s' (snd (pt_init c t (vfs_backend_word s opts)))) opts.
+Proof.
+  apply (twins_within_subset _ (vfs_backend_word s opts)); [apply vfs_out_subset|].
+  pose proof (pt_twins_negotiated c t (vfs_backend_word s opts)) as [A [B [C [D [E F]]]]].
+  set (tb := snd (pt_init c t (vfs_backend_word s opts))) in *.
+  unfold twins_within, vfs_twins. cbn [w_release w_releasedir w_create_handle w_create_wb w_create_killpriv w_setattr_killpriv].
+  repeat split; try assumption.
+  - intro H. apply A. destruct (w_release (pt_twins tb)); [destruct (vfs_open_enosys s'); discriminate|reflexivity|discriminate].
+  - intro H. apply B. destruct (w_releasedir (pt_twins tb)); [destruct (vfs_opendir_enosys s'); discriminate|reflexivity|discriminate].
+Qed.
+
+(* per-file DAX with a dax_file_size threshold: still only with the negotiated switch *)
+Theorem pt_behaviour_d_negotiated d c t capable :
+  behaviour_within (pt_behaviour_d d c (snd (pt_init c t capable))) capable.
+Proof.
+  destruct (pt_init_any c t capable) as [A [B [C [D E]]]].
+  unfold behaviour_within, pt_behaviour_d. cbn [b_open_enosys b_opendir_enosys b_writeback_flags b_killpriv b_dax].
+  repeat split; try assumption. intro H. apply andb_prop in H. apply E, H.
+Qed.
+Lemma pt_behaviour_d_true c t : pt_behaviour_d true c t = pt_behaviour c t.
+Proof. unfold pt_behaviour_d, pt_behaviour. rewrite andb_true_r. reflexivity. Qed.
+
+(* the async entry point of the Vfs is the same test on the same state: every theorem about
+   [vfs_open_enosys] is a theorem about it *)
+Theorem vfs_async_open_twin s : vfs_async_open_enosys s = vfs_open_enosys s.
+Proof. reflexivity. Qed.
+
+Theorem vfs_async_no_open_negotiated s opts bs r s' :
+  v_initialized s = false -> vfs_init s opts bs = (r, s') ->
+  vfs_async_open_enosys s' = true -> has opts F_ZERO_MESSAGE_OPEN = true.
+Proof. rewrite vfs_async_open_twin. apply vfs_no_open_negotiated. Qed.
+
 (* ------------------------------------------------------------------ statements as used by Props/C12.v *)
 Definition toggles_history_full : Prop := pt_history_full /\ ovl_history_full.
 Theorem toggles_history_holds : toggles_history_full.
